@@ -88,6 +88,39 @@ theorem C10_changed_new_dep (h₀ : List IOp) (hf : IFaithful h₀ = true) (t : 
   simp only [List.take_length] at this
   exact (this hex hF).2.1 p hp hrcd
 
+/-- **With the repair proposed in findings/pending/C10-readded-dep-stale-state.md** (`depChangedRepaired`: a
+    dependency missing from the saved `deps:` list counts as changed; not the code of the present tree) the full
+    statement holds on every path except the false-uptodate exit of F-C10. -/
+theorem C10_changed_repaired (h : List IOp) (hf : IFaithful h = true) (k : Nat) (t : Name) (always : Bool) :
+    let σ := runI (h.take k)
+    executes σ t always = true → falseItemAt σ t = false → changedOk σ t (kwargsRepaired σ t) = true := by
+  intro σ hex hF
+  have hinv : Inv σ := runI_inv _ (ifaithful_take h k hf)
+  have hst : σ.status true t = .run ∨ σ.status true t = .upToDate := by
+    simp only [executes, Bool.or_eq_true, Bool.and_eq_true, beq_iff_eq] at hex
+    rcases hex with h1 | ⟨_, h1⟩
+    · exact Or.inl h1
+    · exact Or.inr h1
+  have hself : sameSet (σ.defs t).deps (σ.defs t).deps = true := by simp [sameSet]
+  simp only [changedOk, kwargsRepaired, hself, Bool.and_true, decide_true, List.all_eq_true,
+    Bool.or_eq_true, Bool.not_eq_true']
+  intro p hp
+  cases hn : needsAt σ t p with
+  | false => exact Or.inl rfl
+  | true =>
+    refine Or.inr (decide_eq_true ?_)
+    cases hs : σ.shadow t with
+    | none =>
+      exact repaired_superset _ _ _ _ _ _
+        (changed_of_needsSeen hinv t p hF hst hp (by simp [needsSeenAt, needsSeen, hs]))
+    | some e =>
+      by_cases hmem : p ∈ e.deps
+      · have hn' : needsSeenAt σ t p = true := by
+          simp only [needsAt, needs, hs, hmem, decide_true, Bool.not_true, Bool.false_or] at hn
+          simp [needsSeenAt, needsSeen, hs, hmem, hn]
+        exact repaired_superset _ _ _ _ _ _ (changed_of_needsSeen hinv t p hF hst hp hn')
+      · exact repaired_new_dep hinv t p e hF hp hs hmem
+
 /-- a modified or new file dependency is never hidden behind a skip: the task is not up-to-date
     (so under every runner its action is executed and receives kwargs at all) -/
 theorem C10_needed_dep_forces_execution (h : List IOp) (hf : IFaithful h = true) (k : Nat) (t : Name) (p : Path) :
